@@ -6,6 +6,7 @@ import (
 	"time"
 
 	"github.com/KevoDB/kevo/pkg/stats"
+	"github.com/KevoDB/kevo/pkg/verifhook"
 )
 
 // Manager implements the TransactionManager interface
@@ -100,6 +101,7 @@ func (m *Manager) BeginTransaction(readOnly bool) (Transaction, error) {
 		tx.hasWriteLock.Store(true)
 	}
 
+	verifhook.Point("tx.begin.after_lock")
 	return tx, nil
 }
 
